@@ -670,9 +670,31 @@ type ygClient struct {
 	ops    []ygOp
 	next   int    // controller side: next operation to start
 	state  ygWord // ygIdle / ygParked / ygDone (written by the client, read by the controller)
-	point  ygWord // index into ygPoints of the park point
+	point  ygWord // index into ygPoints of the park point, or ygLockBase+k for "lock#k"
+	goid   ygWord // goroutine id of the client (other goroutines of the program under test also reach Yield)
 	cur    int    // client side: operation being executed
 	parked map[string]bool
+	locks  int // client side: instrumented lock acquisitions seen in the current operation
+	held   int // client side: instrumented locks currently held by the operation
+}
+
+// ygLockBase offsets the ordinal of an auto-instrumented lock acquisition ("lock#k", see bin/instrument-locks)
+// in ygClient.point.
+const ygLockBase = 1000
+
+// ygGoid returns the current goroutine's id (parsed from the stack header; no shared state is touched).
+func ygGoid() uint64 {
+	var buf [64]byte
+	n := runtime.Stack(buf[:], false)
+	// "goroutine 123 ["
+	var id uint64
+	for _, c := range buf[len("goroutine "):n] {
+		if c < '0' || c > '9' {
+			break
+		}
+		id = id*10 + uint64(c-'0')
+	}
+	return id
 }
 
 var ygPoints = []string{"receiver.channel-miss", "receiver.stream-miss"}
@@ -712,10 +734,12 @@ func (r *ygRunner) Start() {
 		r.wg.Add(1)
 		go func() {
 			defer r.wg.Done()
+			cl.goid.store(ygGoid())
 			for i := range cl.ops {
 				r.wait(&r.turn, uint64(ci+1), time.Time{})
 				cl.cur = i
 				cl.parked = map[string]bool{}
+				cl.locks, cl.held = 0, 0
 				cl.ops[i].Fn()
 				if i == len(cl.ops)-1 {
 					cl.state.store(ygDone)
@@ -735,11 +759,31 @@ func (r *ygRunner) Yield(point string) {
 		return // not inside a serialized operation
 	}
 	cl := r.clients[t-1]
+	if cl.goid.load() != ygGoid() {
+		return // another goroutine of the program under test (e.g. a channel goroutine)
+	}
 	op := cl.ops[cl.cur]
+	switch point {
+	case "locked":
+		cl.held++
+		return
+	case "unlocked":
+		cl.held--
+		return
+	case "lock":
+		cl.locks++
+		if cl.held > 0 {
+			return // never park while holding a lock: nobody else could get past it
+		}
+		point = "lock#" + strconv.Itoa(cl.locks)
+	}
 	if !op.ParkAt[point] || cl.parked[point] {
 		return
 	}
 	cl.parked[point] = true
+	if strings.HasPrefix(point, "lock#") {
+		cl.point.store(uint64(ygLockBase + cl.locks))
+	}
 	for i, p := range ygPoints {
 		if p == point {
 			cl.point.store(uint64(i))
@@ -788,7 +832,11 @@ func (r *ygRunner) Step(c int, watchdog time.Duration) ygStep {
 		return st
 	}
 	if cl.state.load() == ygParked {
-		st.Parked = ygPoints[cl.point.load()]
+		if pt := cl.point.load(); pt >= ygLockBase {
+			st.Parked = "lock#" + strconv.Itoa(int(pt-ygLockBase))
+		} else {
+			st.Parked = ygPoints[pt]
+		}
 	}
 	return st
 }
